@@ -44,6 +44,16 @@ pub struct C10;
 
 const WEIRD_WIDTHS: &[u32] = &[0, 1, 7, 24, 33, 48, 63, 65, 128, 0x8000_0000];
 
+/// an unsupported width: a plain odd one, or (round 9) a **near-miss width** - a supported width with one higher bit
+/// set or shifted by a byte or two, which aliases the supported width under truncation / masking of the stored width
+fn weird_width(rng: &mut crate::rng::Rng) -> u32 {
+    if rng.chance(1, 2) {
+        *rng.pick(WEIRD_WIDTHS)
+    } else {
+        crate::producer::near_miss_width(rng)
+    }
+}
+
 /// every opcode that defines a typed value (result type + result id, no context-dependent literal of its own)
 fn value_defining_opcodes() -> &'static Vec<u16> {
     static V: std::sync::OnceLock<Vec<u16>> = std::sync::OnceLock::new();
@@ -126,7 +136,7 @@ fn gen_history(rng: &mut Rng, id_base: u32, conflicting_with: Option<&Stream>) -
                 // type declaration
                 let float = g.rng.chance(1, 3);
                 let width = if g.rng.chance(1, 4) {
-                    *g.rng.pick(WEIRD_WIDTHS)
+                    weird_width(&mut g.rng)
                 } else if float {
                     *g.rng.pick(&[16u32, 32, 64])
                 } else {
